@@ -373,6 +373,48 @@ pub fn check_history(c: &HCase) -> Outcome {
         prev_pos = dr.pos.clone();
         prev_logp = dr.f64("logp");
     }
+    // The maxdepth flag against a witness: the same chain with a much larger maxdepth. As long as the witness never
+    // went beyond 2^m - 1 steps the two histories are identical; on the first draw where it did, the first 2^m - 1
+    // steps still coincide, so the witness tells why the chain with maxdepth m stopped.
+    if !c.spec.preset.is_mclmc() && dim > 0 && c.spec.target_integration_time.is_none() && (1..=5).contains(&c.spec.maxdepth) {
+        let m = c.spec.maxdepth;
+        let full = (1u64 << m) - 1;
+        let mut wspec = c.spec.clone();
+        wspec.maxdepth = 14;
+        let w = run_spec(&wspec, LogDensity::new(c.dens.clone()).with_budget(400_000).counting_only(), &c.init, c.ndraws, Keep::None);
+        for t in 0..h.draws.len().min(w.draws.len()) {
+            let (a, b) = (&h.draws[t], &w.draws[t]);
+            let (Some(bd), Some(bn), Some(flag)) = (b.u64("depth"), b.u64("n_steps"), a.bool("maxdepth_reached")) else { break };
+            let expect = if bd < m {
+                false
+            } else if bd == m && bn == full {
+                // the witness stopped exactly at depth m without starting another doubling: a U-turn of the whole
+                // tree (or a divergence) ended the trajectory, not maxdepth
+                o.label_if(!b.diverging, "witness:u-turn-exactly-at-maxdepth");
+                false
+            } else {
+                // the witness started (at least) the doubling beyond depth m
+                o.label("witness:cut-by-maxdepth");
+                !a.diverging
+            };
+            if flag != expect {
+                o.set_fail(
+                    "C03:maxdepth-flag-vs-witness",
+                    format!(
+                        "draw {t}: maxdepth_reached = {flag} with maxdepth {m} (depth {:?}, n_steps {:?}), but the same chain with maxdepth 14 reached depth {bd} with {bn} steps (diverging {}), so the flag must be {expect}",
+                        a.u64("depth"),
+                        a.u64("n_steps"),
+                        b.diverging
+                    ),
+                );
+                return o;
+            }
+            // the histories coincide only while the witness stayed within the smaller tree
+            if bn > full || !bits_eq(&a.pos, &b.pos) {
+                break;
+            }
+        }
+    }
     let has = |l: &str| o.labels.iter().any(|x| x == l);
     if has("moved") && (c.spec.preset.is_mclmc() || has("depth>=2")) {
         let key = format!(
@@ -421,7 +463,7 @@ impl Part for HistoryPart {
         80
     }
     fn floors(&self) -> Vec<(&'static str, f64)> {
-        vec![("moved", 0.5), ("depth>=2", 0.25), ("rejected-partial-doubling", 0.2), ("maxdepth-stop", 0.1), ("divergent-draw", 0.1), ("dim:0", 0.02)]
+        vec![("moved", 0.5), ("depth>=2", 0.25), ("rejected-partial-doubling", 0.2), ("maxdepth-stop", 0.1), ("divergent-draw", 0.1), ("dim:0", 0.02), ("witness:u-turn-exactly-at-maxdepth", 0.008), ("witness:cut-by-maxdepth", 0.03)]
     }
 }
 
